@@ -168,7 +168,7 @@ def run_case(case, acc):
         return
     plabs, rlabs = sorted(pv), sorted(rv)
     rp = rm.RefPair([pv[l] for l in plabs], [rv[l] for l in rlabs])
-    thrs = [case["thr"]] if "thr" in case else thresholds_for(rp, metric, acc)
+    thrs = [case["thr"]] if "thr" in case else thresholds_for(rp, metric, acc, shape=pred.shape)
     from collections import Counter
 
     cr = Counter(r for p, r in rp.cands)
